@@ -3,6 +3,7 @@
 package main
 
 import (
+	"encoding/hex"
 	"encoding/binary"
 	"context"
 	"crypto/sha256"
@@ -153,6 +154,9 @@ func (f *certFam) msgBytes(s string) ([]byte, bool) {
 		return t.ToBytes(), true
 	case strings.HasPrefix(s, "raw:"):
 		return []byte(s), true
+	case strings.HasPrefix(s, "hex:"):
+		b, err := hex.DecodeString(s[4:])
+		return b, err == nil
 	case strings.HasPrefix(s, "enc:"):
 		// enc:<id>:<msg> — the bytes the signature cache hashes for the one-entry batch {id: msg}:
 		// id (4 bytes LE), length of msg (8 bytes LE), msg.  As a MESSAGE of its own it is something else.
@@ -237,6 +241,15 @@ func (f *certFam) op(a []string) string {
 			return "bad-op"
 		}
 		cache, _ := strconv.Atoi(kv["cache"])
+		if ks, ok := kv["keys"]; ok {
+			// keys=<hex>,<hex>,... : fixed BLS private keys for the first replicas (replays of
+			// value-dependent failures); the model ignores the field
+			if a[1] != crypto.NameBLS12 || !presetBLSKeys(strings.Split(ks, ",")) {
+				return "bad-op"
+			}
+		} else {
+			restoreBLSKeys()
+		}
 		f.setup(a[1], n, uint(cache), kv["agg"] == "1")
 		return "ok"
 	}
